@@ -397,6 +397,12 @@ func (w *worker) rtCSV(thorough bool) {
 						}
 						return o
 					}
+					// non-initial decoder state: the same decoder has just failed on a malformed line (an unterminated quoted
+					// field after two good fields); what that left in its pooled buffers must not show up in the next record
+					bad := []byte("x1" + string(d) + "y1" + string(d) + "\"z")
+					for _, sj := range []*subject{subjNone, subjPrefix, subjCols[len(row)]} {
+						w.exec(sj, bad, false)
+					}
 					w.rt(subjNone, line, mk(func(i int) string { return strconv.Itoa(i) }), "")
 					w.rt(subjPrefix, line, mk(func(i int) string { return "csv_" + strconv.Itoa(i) }), "")
 					w.rt(subjCols[len(row)], line, mk(func(i int) string { return colNames[i] }), "")
